@@ -15,7 +15,10 @@ What is compared with the model
   * the index logic of both `_interpolate_line`s (Bresenham pixels exact; linspace count and positions);
   * the whole raster `sample_path` end to end (all samples are pixel centres), and the flat map;
   * `_filter_points` of both classes on synthetic samples with dyadic heights (exact ties |dz| = tolerance);
-  * malformed stream: `sample_path` with the wrong number of coordinates (argument check -> ValueError).
+  * malformed stream: `sample_path` with the wrong number of coordinates (argument check -> ValueError);
+  * maps far from the origin (batch `far`): sparse maps go through all of the above; pixel strips up to 1.3 x 10^5 long
+    are not shipped as a grid - their `filter` and Bresenham records are compared, depths and whole paths are judged by
+    the oracle only.
 The oracle (independent of the model) evaluates the property's clauses on what the implementation returned.
 """
 from __future__ import annotations
@@ -125,7 +128,7 @@ def build_raster(case, tmp):
     from gscrib.heightmaps import RasterHeightMap
 
     dt = np.uint8 if case["dtype"] == "uint8" else np.uint16
-    img = np.array(case["img"], dtype=dt)
+    img = strip_image(case["strip"], dt) if "strip" in case else np.array(case["img"], dtype=dt)
     if case["load"] == "png":
         import cv2
 
@@ -186,6 +189,20 @@ def build_sparse(case, tmp):
     if prior:
         PRIOR[id(hm)] = float(prior)
     return hm, data
+
+
+def strip_image(st, dt):
+    """a long narrow image given compactly: `seg` = [[length, first value, last value], ...] is the profile along the long
+    axis (linear inside a segment, repeated until `long` pixels are filled), the same for each of the `short` rows"""
+    import numpy as np
+
+    prof = []
+    while len(prof) < st["long"]:
+        for n, v0, v1 in st["seg"]:
+            prof += [int(round(v0 + (v1 - v0) * i / max(1, n - 1))) for i in range(n)]
+    row = np.array(prof[:st["long"]], dtype=dt)
+    img = np.repeat(row[None, :], st["short"], axis=0)
+    return np.ascontiguousarray(img.T) if st["along"] == "y" else img
 
 
 def stored_grid(img, dtype):
@@ -321,7 +338,10 @@ def run_raster(case, tmp):
     g = stored_grid(img, case["dtype"])
     mx = 255.0 if case["dtype"] == "uint8" else 65535.0
     failures, lines, cmp = [], [], []
-    grid_txt = ";".join(",".join(q(v) for v in row) for row in g.tolist())
+    # a strip (up to 10^5 pixels long) is not shipped to the model as a grid: its records are the grid-free ones
+    # (`filter` on the implementation's own samples, the Bresenham pixels); depths and whole paths are judged by the oracle
+    strip = "strip" in case
+    grid_txt = "" if strip else ";".join(",".join(q(v) for v in row) for row in g.tolist())
     # ---- get_depth_at
     qs, impl = [], []
     for x, y in case["queries"]:
@@ -329,7 +349,9 @@ def run_raster(case, tmp):
         impl.append(got)
         integral = float(x).is_integer() and float(y).is_integer()
         inr = 0 <= x < W and 0 <= y < H
-        if integral and inr:
+        if strip:
+            v = None
+        elif integral and inr:
             v = "-"
         else:  # the spline is a parameter: its own value at (row=y, col=x)
             v = q(hm._interpolator(y, x)[0, 0])
@@ -344,8 +366,9 @@ def run_raster(case, tmp):
             if abs(F(got) - want) > F(1, 10**6) * max(1, F(sc)):
                 failures.append(("raster-stored", f"get_depth_at({x},{y}) = {got}, expected scale x pixel[row {int(y)}][col {int(x)}]"
                                                   f" = {float(want)}", {"query": [x, y]}))
-    lines.append(f"raster sc={q(sc)} grid={grid_txt} q={','.join(qs)}")
-    cmp.append(("raster-depth", impl))
+    if not strip:
+        lines.append(f"raster sc={q(sc)} grid={grid_txt} q={','.join(qs)}")
+        cmp.append(("raster-depth", impl))
     # ---- paths
     for ln in case["lines"]:
         out, full = path_obs(hm, ln)
@@ -361,12 +384,14 @@ def run_raster(case, tmp):
         cmp.append(("filter", (samples_text(out), [p[2] for p in full], tol)))
         lines.append(f"lineR {xy}")
         cmp.append(("lineR", " ".join(f"{int(p[0])}:{int(p[1])}" for p in full)))
-        lines.append(f"pathR sc={q(sc)} grid={grid_txt} tol={q(tol)} {xy}")
-        cmp.append(("pathR", (full, out, tol)))
+        if not strip:
+            lines.append(f"pathR sc={q(sc)} grid={grid_txt} tol={q(tol)} {xy}")
+            cmp.append(("pathR", (full, out, tol)))
     bad_lines(hm, case, lines, cmp)
     return {"lines": lines, "cmp": cmp, "failures": failures,
             "stats": [f"raster:{case['dtype']}", f"raster-load:{case['load']}", f"raster-kind:{case['gen']}",
-                      "raster-square" if H == W else "raster-nonsquare"]}
+                      "raster-square" if H == W else "raster-nonsquare"]
+                     + ([f"raster-strip-long:1e{len(str(max(H, W))) - 1}"] if strip else [])}
 
 
 # ------------------------------------------------------------------ one sparse case
@@ -676,6 +701,151 @@ def gen_sparse(rng):
             **({"prior_scale": scale * rng.choice([0.25, 3.0])} if rng.random() < 0.3 else {})}
 
 
+# ---- maps far from the origin (work offsets, long scans): coordinates 10^2 .. 10^5 with a tolerance that is small
+# relative to them.  Everything the path clauses say is stated in absolute terms (the requested ends, the tolerance), so
+# a comparison that scales with the coordinate magnitude shows here and nowhere near the origin.
+def _far_origin(rng):
+    m = 10 ** rng.uniform(2, 5)
+    return m, rng.choice([1, 1, 1, -1]) * round(m * rng.uniform(1, 3), 2)
+
+
+def gen_sparse_far(rng):
+    """probe data of a profiled part: the height depends on one axis only, piecewise linear with slopes and flats
+    (plateaus) between the probed stations; lines that end on a flat just after a slope, very short lines, lines from a
+    flat onto a slope, and arbitrary ones; segment lengths of 8..40 tolerances, so lines have at most ~200 probes"""
+    o_s = _far_origin(rng)[1]
+    o_c = _far_origin(rng)[1] if rng.random() < 0.5 else round(rng.uniform(-20, 20), 2)
+    # the tolerance (= probe spacing) is 0.2 .. 2 hundred-thousandths of the largest coordinate, the stations are 8..40
+    # tolerances apart: spacing / |coordinate| >= 4e-6.  (Below ~1e-7 Qhull no longer separates the stored points - see the
+    # note on ill-conditioned point sets in the summary of this family; that regime is not generated here.)
+    tol = float(f"{1e-5 * max(abs(o_s), abs(o_c)) * rng.choice([0.2, 0.5, 0.5, 1.0, 2.0]):.3g}")
+    u = tol * rng.choice([8, 20, 40])
+    k = rng.randint(3, 5)
+    w = u * rng.choice([0.5, 1.0, 2.0])
+    scale = rng.choice(SCALES) if rng.random() < 0.8 else round(rng.uniform(0.1, 20.0), 3)
+    # slope of each segment in height per unit of length AFTER scaling: 0 = flat; >= 1 keeps every probe of the path
+    kinds = [rng.choice([0.0, 0.0, 0.5, 1.0, 2.0, 10.0, -1.0, -3.0]) for _ in range(k)]
+    j = rng.randrange(k - 1)
+    if kinds[j] == 0.0:
+        kinds[j] = rng.choice([0.5, 1.0, 2.0, 10.0, -3.0])
+    kinds[j + 1] = 0.0  # at least one flat right after a slope
+    h = [rng.choice([0.0, 0.0, 5.0, -3.0, 13.0])]
+    for s in kinds:
+        h.append(h[-1] + s * u / scale)
+    st = [o_s + i * u for i in range(k + 1)]        # stations along the profile axis
+    rows = [0.0, w] if rng.random() < 0.6 else [0.0, w / 2, w]
+    along = rng.choice(["x", "y"])
+
+    def xy(s, c):
+        return [s, o_c + c] if along == "x" else [o_c + c, s]
+
+    data = [xy(st[i], r) + [h[i]] for i in range(k + 1) for r in rows]
+    rng.shuffle(data)
+
+    def across():
+        return rng.uniform(0.1, 0.9) * w
+
+    def on(i, lo=0.1, hi=0.9):
+        return st[i] + rng.uniform(lo, hi) * u
+
+    lines, slopes_then_flat = [], [i for i in range(k - 1) if kinds[i] != 0.0 and kinds[i + 1] == 0.0]
+    for _ in range(2):  # up (or down) a slope, stopping on the flat within a few probes of its beginning
+        i = rng.choice(slopes_then_flat)
+        c1 = across()
+        c2 = c1 if rng.random() < 0.7 else across()
+        a, b = xy(on(i), c1), xy(st[i + 1] + tol * rng.uniform(0.0, 3.0), c2)
+        lines.append(a + b)
+    i = rng.choice(slopes_then_flat)      # the other way round: from the flat onto the slope
+    c1 = across()
+    lines.append(xy(on(i + 1), c1) + xy(st[i + 1] - tol * rng.uniform(0.0, 3.0), c1))
+    for _ in range(2):  # very short moves (0.05 .. 2.5 tolerances), along an axis or in any direction
+        i = rng.randrange(k)
+        s1, c1, ln = on(i, 0.2, 0.8), rng.uniform(0.3, 0.7) * w, tol * rng.uniform(0.05, 2.5)
+        ang = rng.choice([0.0, 0.0, math.pi / 2, math.pi]) if rng.random() < 0.6 else rng.uniform(0, 2 * math.pi)
+        lines.append(xy(s1, c1) + xy(s1 + ln * math.cos(ang), c1 + ln * math.sin(ang)))
+    lines.append(xy(rng.uniform(st[0], st[-1]), across()) + xy(rng.uniform(st[0], st[-1]), across()))
+    if rng.random() < 0.3:
+        p = xy(on(rng.randrange(k)), across())
+        lines.append(p + p)  # zero length
+    queries = [[p[0], p[1]] for p in data]
+    for _ in range(10):
+        queries.append(xy(rng.uniform(st[0], st[-1]), rng.uniform(0, w)))
+    for _ in range(6):
+        queries.append(xy(rng.uniform(st[0] - 2 * u, st[-1] + 2 * u), rng.uniform(-w, 2 * w)))
+    return {"kind": "sparse", "gen": "far-profile", "points": data, "load": rng.choice(["array", "array", "csv", "tsv"]),
+            "scale": scale, "tol": tol, "queries": queries, "lines": lines, "badlines": gen_badlines(rng),
+            **({"prior_scale": scale * rng.choice([0.25, 3.0])} if rng.random() < 0.3 else {})}
+
+
+def gen_sparse_shifted(rng):
+    """an ordinary random point set (as `gen_sparse`) probed at a work offset of 10^2 .. 10^5 in one or both axes"""
+    case = gen_sparse(rng)
+    ox = _far_origin(rng)[1]
+    oy = _far_origin(rng)[1] if rng.random() < 0.5 else 0.0
+    case["points"] = [[x + ox, y + oy, z] for x, y, z in case["points"]]
+    case["queries"] = [[x + ox, y + oy] for x, y in case["queries"]]
+    case["lines"] = [[a + ox, b + oy, c + ox, d + oy] for a, b, c, d in case["lines"]]
+    case["gen"] = "far-" + case["gen"]
+    return case
+
+
+def gen_raster_strip(rng):
+    """a long narrow scan (4..6 pixels by 10^2 .. 1.3 x 10^5) whose profile repeats slopes and flats of 3..30 pixels; lines
+    near the far end of the strip, ending on a flat just after a slope, one or two pixels long, or arbitrary"""
+    long_ = int(10 ** rng.choice([2, 3, 4, 5]) * rng.uniform(1.0, 1.3))
+    short = rng.randint(4, 6)
+    dtype = rng.choice(["uint8", "uint16"])
+    top = 255 if dtype == "uint8" else 65535
+    seg, v = [], rng.randint(0, top)
+    for i in range(rng.randint(2, 4) * 2):
+        n = rng.randint(3, 30)
+        if i % 2 == 0:
+            v1 = rng.randint(0, top)
+            seg.append([n, v, v1])
+            v = v1
+        else:
+            seg.append([n, v, v])  # a flat right after a slope
+    period = sum(s[0] for s in seg)
+    along = rng.choice(["x", "x", "y"])
+    scale = rng.choice(SCALES) if rng.random() < 0.8 else round(rng.uniform(0.1, 20.0), 3)
+    tol = rng.choice(TOLS_R) * (scale if rng.random() < 0.5 else 1.0)
+
+    def xy(s, c):
+        return [s, c] if along == "x" else [c, s]
+
+    # the flats (first pixel, length) of the repeated profile; those near the far end of the strip are used
+    flats, off = [], 0
+    while off < long_:
+        for n, v0, v1 in seg:
+            if v0 == v1 and 0 < off < long_ - 1:
+                flats.append((off, n))
+            off += n
+    flats = [f for f in flats if f[0] >= long_ - 300] or flats[-3:]
+    lines = []
+    for _ in range(3):
+        f0, n = rng.choice(flats)
+        c1 = rng.randint(0, short - 1)
+        c2 = c1 if rng.random() < 0.7 else rng.randint(0, short - 1)
+        e = min(long_ - 1, f0 + rng.randint(0, min(n - 1, 3)))
+        lines.append(xy(max(0, f0 - rng.randint(2, 40)), c1) + xy(e, c2))
+    for _ in range(2):
+        s1, c1 = rng.randint(max(0, long_ - 200), long_ - 3), rng.randint(0, short - 1)
+        lines.append(xy(s1, c1) + xy(s1 + rng.choice([1, 1, 2, -1]), c1 if rng.random() < 0.7 else rng.randint(0, short - 1)))
+    s1 = rng.randint(max(0, long_ - 150), long_ - 1)
+    lines.append(xy(s1, rng.randint(0, short - 1)) + xy(rng.randint(max(0, long_ - 150), long_ - 1), rng.randint(0, short - 1)))
+    if rng.random() < 0.3:
+        lines[-1] = [float(v) for v in lines[-1]]
+    queries = [xy(rng.randint(0, long_ - 1), rng.randint(0, short - 1)) for _ in range(30)]
+    queries += [xy(long_ - 1, short - 1), xy(long_, 0), xy(0, short), xy(long_ - 1, short), xy(long_, short - 1), xy(-1, 0),
+                xy(float(long_), 1.0), xy(long_ - 0.5, 0.5), xy(long_ + 5, short + 5)]
+    for _ in range(6):
+        queries.append(xy(rng.uniform(0, long_ - 1), rng.uniform(0, short - 1)))
+    return {"kind": "raster", "gen": "strip", "dtype": dtype,
+            "strip": {"long": long_, "short": short, "along": along, "seg": seg},
+            "load": "png" if rng.random() < 0.2 else "array", "scale": scale, "tol": tol, "queries": queries, "lines": lines,
+            "badlines": gen_badlines(rng)}
+
+
 def gen_badlines(rng):
     """malformed stream (~15 % of the maps): the wrong number of coordinates"""
     if rng.random() > 0.15:
@@ -693,6 +863,14 @@ def gen_filter(rng):
         z += rng.choice([-2, -1, -1, 0, 0, 1, 1, 2, 3]) * unit * rng.choice([1, 1, 1, 2])
     if n > 1 and rng.random() < 0.15:
         pts[-1][2] = pts[0][2]
+    if rng.random() < 0.25:
+        # the same samples as they come from a map far from the origin: a fine step at a large offset, often ending on a flat
+        ox, oy = _far_origin(rng)[1], (_far_origin(rng)[1] if rng.random() < 0.5 else 0.0)
+        step = 2.0 ** -rng.randint(0, 9)
+        pts = [[ox + p[0] * step, oy + p[1] * step, p[2]] for p in pts]
+        if n > 2 and rng.random() < 0.6:
+            for p in pts[-rng.randint(1, 2):]:
+                p[2] = pts[-3][2]
     return {"kind": "filter", "cls": rng.choice(["raster", "sparse"]), "tol": tol, "points": pts}
 
 
@@ -728,13 +906,26 @@ def corpus():
         {"kind": "filter", "cls": "raster", "tol": 0.5,
          "points": [[0.0, 0.0, 0.0], [1.0, 0.0, 0.25], [2.0, 0.0, 0.5], [3.0, 0.0, 0.75], [4.0, 0.0, 1.0], [5.0, 0.0, 1.0]]},
         {"kind": "filter", "cls": "sparse", "tol": 0.25, "points": [[0.0, 0.0, 1.0]]},
+        # far from the origin: a part probed at a work offset of (4000, -2500), profile along y: flat, slope, flat; lines
+        # that stop on the upper flat 2 and 9 thousandths after the slope, a 6-thousandths move on the flat, a move off it
+        {"kind": "sparse", "gen": "corpus-far", "load": "array", "scale": 1.0, "tol": 0.004,
+         "points": [[4000.0, -2500.0, 1.0], [4000.25, -2500.0, 1.0], [4000.0, -2499.75, 1.0], [4000.25, -2499.75, 1.0],
+                    [4000.0, -2499.5, 3.0], [4000.25, -2499.5, 3.0], [4000.0, -2499.25, 3.0], [4000.25, -2499.25, 3.0]],
+         "queries": [[4000.0, -2500.0], [4000.25, -2499.5], [4000.125, -2499.625], [4000.125, -2499.3], [4001.0, -2499.3]],
+         "lines": [[4000.125, -2499.7, 4000.125, -2499.498], [4000.125, -2499.7, 4000.125, -2499.491],
+                   [4000.1, -2499.4, 4000.1, -2499.394], [4000.1, -2499.4, 4000.1, -2499.6], [4000.05, -2499.9, 4000.2, -2499.3]]},
+        # a scan 100 050 pixels long: slopes of 12 pixels and flats of 8; lines near its far end
+        {"kind": "raster", "gen": "corpus-strip", "dtype": "uint8", "load": "array", "scale": 1.0, "tol": 0.05,
+         "strip": {"long": 100050, "short": 4, "along": "x", "seg": [[12, 20, 240], [8, 240, 240], [12, 240, 20], [8, 20, 20]]},
+         "queries": [[100049, 3], [100050, 0], [0, 4], [100012, 1], [100020, 2], [50000, 1], [99999.5, 1.5]],
+         "lines": [[100002, 1, 100013, 1], [100002, 1, 100012, 1], [100015, 2, 100016, 2], [100030, 0, 100049, 3], [100049, 3, 100000, 0]]},
     ]
 
 
 # ------------------------------------------------------------------ batches
 def nontrivial(case):
     if case["kind"] == "raster":
-        return len(case["img"]) != len(case["img"][0]) and len(case["lines"]) >= 1
+        return ("strip" in case or len(case["img"]) != len(case["img"][0])) and len(case["lines"]) >= 1
     if case["kind"] == "sparse":
         return len(case["points"]) >= 4 and len(case["lines"]) >= 1
     if case["kind"] == "filter":
@@ -809,8 +1000,11 @@ def run(R: core.Run):
     _pending_findings()
     R.rule = ("one case = one heightmap (random 8/16-bit image 4..12 x 4..15, noise / ramp / ramp+noise / steps, array or PNG "
               "via cv2; or 4..15 distinct non-collinear points on an integer, quarter or float grid, array or CSV/TSV; or the flat "
-              "map) with its scale, tolerance, query points (all pixel centres / stored points, range-test boundary, random "
-              "interior and exterior) and 4-6 lines; non-trivial = non-square image or >= 4 points, with at least one sampled "
+              "map; or, far from the origin (coordinates 10^2..10^5, tolerance 0.2..2 x 10^-5 of them), a profiled part probed at "
+              "3..5 stations with slopes and flats, a shifted random point set, or a 4..6 x 10^2..1.3x10^5 pixel strip (oracle + "
+              "grid-free model records only)) with its scale, tolerance, query points (all pixel centres / stored points, "
+              "range-test boundary, random interior and exterior) and 4-8 lines (far maps: lines ending on a flat just after a "
+              "slope, moves of 0.05..2.5 tolerances); non-trivial = non-square image or >= 4 points, with at least one sampled "
               "line; distinct by hash of the whole case")
     R.assumptions = [
         "FITPACK (RectBivariateSpline, s=0) is a parameter of the model: the theorems assume it reproduces the grid; the run "
@@ -836,6 +1030,10 @@ def run(R: core.Run):
     cases = ([gen_raster(R.rng) for _ in range(nr)] + [gen_sparse(R.rng) for _ in range(ns)]
              + [gen_flat(R.rng) for _ in range(nf)] + [gen_filter(R.rng) for _ in range(nx)])
     run_batch(R, cases, "random")
+    # maps far from the origin (coordinates 10^2 .. 10^5, tolerances small relative to them)
+    far = ([gen_sparse_far(R.rng) for _ in range(R.n(40, 600))] + [gen_sparse_shifted(R.rng) for _ in range(R.n(10, 150))]
+           + [gen_raster_strip(R.rng) for _ in range(R.n(4, 40))])
+    run_batch(R, far, "far")
     if R.thorough:
         # small scope, exhaustive: every Bresenham line between pixels of a 7 x 6 window (incl. outside a 4 x 5 image)
         ex = [f"lineR x1={a} y1={b} x2={c} y2={d}" for a in range(-1, 6) for b in range(-1, 5) for c in range(-1, 6) for d in range(-1, 5)]
@@ -857,7 +1055,8 @@ def run(R: core.Run):
         # failing-input search: a fresh, larger batch judged by the oracle only
         R.search_batches += 1
         more = ([gen_raster(R.rng) for _ in range(R.n(60, 300))] + [gen_sparse(R.rng) for _ in range(R.n(200, 1000))]
-                + [gen_filter(R.rng) for _ in range(R.n(1000, 5000))])
+                + [gen_filter(R.rng) for _ in range(R.n(1000, 5000))]
+                + [gen_sparse_far(R.rng) for _ in range(R.n(60, 300))] + [gen_raster_strip(R.rng) for _ in range(R.n(4, 20))])
         run_batch(R, more, "search", with_model=False)
     return {FINDING_ID: finding_predicate}, {FINDING_ID: witness}
 
